@@ -29,6 +29,7 @@ Member gen_symlink(Rng &rng, int level, const std::string &path, const std::stri
                    const std::string &target, const TreeOpts &o);
 void gen_tree(Rng &rng, const TreeOpts &o, std::vector<Member> &out);
 std::string gen_name(Rng &rng, int maxlen = 10);
+void add_noise_ext(Rng &rng, Member &m);   // extended headers that carry nothing the oracles compare
 
 // encode (path, name, metadata) into the header fields of the given level
 void encode_names(Member &m, const std::string &path, const std::string &name_field);
